@@ -163,6 +163,7 @@ func newErcFixture(t *testing.T, p *hx.Proto, runners bool) (*ercFixture, *chain
 		ak.SetAccount(ctx, vestingtypes.NewDelayedVestingAccountRaw(bva))
 		f.addrs[8] = a
 	}
+	f.addrs[9] = common.HexToAddress("0x00000000000000000000000000000000000071c9") // a pure recipient: sequence 0, no code, and (at first) coins of the second denomination only
 	f.addrs[90] = common.BytesToAddress(authtypes.NewModuleAddress(authtypes.FeeCollectorName))
 	f.addrs[91] = common.BytesToAddress(authtypes.NewModuleAddress(evmtypes.ModuleName))
 	f.addrs[92] = cpctypes.CpcModuleAddress
@@ -174,6 +175,7 @@ func newErcFixture(t *testing.T, p *hx.Proto, runners bool) (*ercFixture, *chain
 	for i := 1; i <= 6; i++ {
 		fund(f.addrs[i], "utwo", big.NewInt(int64(1000*i)))
 	}
+	fund(f.addrs[9], "utwo", big.NewInt(444))
 	fund(f.addrs[8], "utwo", big.NewInt(750))
 	fund(f.addrs[8], c.evmDenom, big.NewInt(950))
 	fund(f.addrs[5], c.evmDenom, big.NewInt(5000))
@@ -373,6 +375,21 @@ func TestEngineErc20(t *testing.T) {
 	doCall(50, 1, "approve", 2, 0, big.NewInt(500))
 	doCall(51, 2, "transferFrom", 1, 3, big.NewInt(400))
 
+	// directed: a zero-value message to the holder that has coins of the second denomination only (sequence 0, no code):
+	// nobody but the holder may move or burn them, so every balance must stand (emptiness looks at every denomination)
+	touch := func(caller, to int) {
+		op := fmt.Sprintf("etouch c=%d a=%d", caller, to)
+		if _, err := f.call(f.addrs[caller], f.addrs[to], nil); err != nil {
+			p.Emit(op, "error "+f.digest())
+		} else {
+			p.Emit(op, "ok "+f.digest())
+		}
+		p.Count("touch")
+	}
+	touch(1, 9)
+	doCall(51, 2, "transfer", 7, 0, big.NewInt(5)) // the account that did not exist receives the second denomination only …
+	touch(3, 7)                                    // … and is touched
+
 	for i := 0; i < n; i++ {
 		tok := 50 + r.Intn(2)
 		den := f.tokDen[tok]
@@ -413,16 +430,8 @@ func TestEngineErc20(t *testing.T) {
 			}
 			doCall(tok, caller, "burnFrom", from, 0, amt)
 		case k < 93: // a zero-value plain EVM message to an address (touches it; it holds coins of some denomination or nothing)
-			to := hx.Pick(r, []int{1, 2, 3, 4, 7, 8, 5})
-			op := fmt.Sprintf("etouch c=%d a=%d", caller, to)
-			from := f.addrs[1+r.Intn(4)]
-			_, err := f.call(from, f.addrs[to], nil)
-			if err != nil {
-				p.Emit(op, "error "+f.digest())
-			} else {
-				p.Emit(op, "ok "+f.digest())
-			}
-			p.Count("touch")
+			to := hx.Pick(r, []int{1, 2, 3, 4, 7, 8, 5, 9, 9})
+			touch(1+r.Intn(4), to)
 		default:
 			// native bank send through the real message server
 			from, to := 1+r.Intn(4), anyAddr()
